@@ -1460,7 +1460,7 @@ class Memoer(Tymee):
                     vid = self.vids.get(mid.decode()) # if not then get from .vids
                     vid = vid.encode() if vid is not None else b""
             elif code in AckDex:
-                pass
+                raise hioing.MemoerError(f"Unsupported ack gram {code=}")
             else:
                 raise hioing.MemoerError(f"Invalid {code=}")
 
@@ -1498,7 +1498,7 @@ class Memoer(Tymee):
                     vid = self.vids.get(mid.decode()) # if not then get from .vids
                     vid = vid.encode() if vid is not None else b""
             elif code in AckDex:
-                pass
+                raise hioing.MemoerError(f"Unsupported ack gram {code=}")
             else:
                 raise hioing.MemoerError(f"Invalid {code=}")
 
@@ -1592,7 +1592,8 @@ class Memoer(Tymee):
 
         try:
             mid, vid, gn, gc = self.pick(gram)  # parse and strip off head leaving body
-        except hioing.MemoerError as ex: # invalid gram so drop
+        except (hioing.MemoerError, KeyError, ValueError, IndexError) as ex: # invalid gram so drop
+            # KeyError unknown code or non Base64 char, ValueError undecodable
             # may be bad signature when signed or unrecognized header format
             logger.error("Invalid Memoer gram from %s.\n %s.", src, ex)
             return True  # did receive data so can try again now
@@ -1660,7 +1661,7 @@ class Memoer(Tymee):
                           to fuse memo. Headers have been stripped.
             cnt (int): gram count for mid
         """
-        if len(grams) < cnt:  # must be missing one or more grams
+        if any(i not in grams for i in range(cnt)):  # missing one or more grams
             return None
 
         memo = bytearray()
@@ -1682,7 +1683,15 @@ class Memoer(Tymee):
             # if mid then grams dict at mid must not be empty
             if not mid in self.counts:  # missing first gram so skip
                 continue
-            memo = self.fuse(self.rxgs[mid], self.counts[mid])
+            try:
+                memo = self.fuse(self.rxgs[mid], self.counts[mid])
+            except ValueError as ex:  # fused grams not decodable as memo so drop
+                logger.error("Invalid Memoer memo from %s.\n %s.", self.sources[mid], ex)
+                del self.rxgs[mid]
+                del self.counts[mid]
+                del self.sources[mid]
+                del self.vids[mid]
+                continue
             if memo is not None:  # allows for empty "" memo for some src
                 self.rxms.append((memo, self.sources[mid], self.vids[mid]))
                 del self.rxgs[mid]
